@@ -42,10 +42,18 @@ def run_case(case):
         kw = {}
         if case["hdrenc_ctor"]:
             kw["header_encryption"] = True
-        z = py7zr.SevenZipFile(bio, "w", filters=filters, password=pw, **kw)
+        how = case.get("open", "w")
+        first = 0
+        if how == "a-existing":              # an earlier session (same password, same chain) wrote the first member
+            z0 = py7zr.SevenZipFile(bio, "w", filters=filters, password=pw, **kw)
+            z0.writestr(members[0][1], members[0][0])
+            z0.close()
+            bio.seek(0)
+            first = 1
+        z = py7zr.SevenZipFile(bio, "w" if how == "w" else "a", filters=filters, password=pw, **kw)
         for which, m in case["sets"]:
             (z.set_encrypted_header if which == "encrypted" else z.set_encoded_header_mode)(m)
-        for n, d in members:
+        for n, d in members[first:]:
             z.writestr(d, n)
         z.close()
         return bio.getvalue()
@@ -60,6 +68,7 @@ def run_case(case):
     nokey_content = nokey_names = False
     mode = "?"
     ivs = {"a": [], "b": []}
+    folders_aes = True
     cipher = {"a": b"", "b": b""}
     try:
         end = 32 + int.from_bytes(a[12:20], "little") + int.from_bytes(a[20:28], "little")
@@ -78,6 +87,8 @@ def run_case(case):
                 hc = [c["method"] for c in (P.header_coders or [])]
                 mode = "aes" if "06f10701" in hc else ("lzma" if P.header_mode == "encoded" else "raw")
             for fo in P.folders:
+                if not any(c["method"] == "06f10701" for c in fo["coders"]):
+                    folders_aes = False
                 for c in fo["coders"]:
                     if c["method"] == "06f10701":
                         ivs[tag].append(c["props"])
@@ -97,7 +108,7 @@ def run_case(case):
     shared = sum(1 for i in range(0, len(cipher["b"]) - 15, 16) if cipher["b"][i:i + 16] in blocks_a)
     cipher_fresh = shared == 0          # no ciphertext block of one archive occurs in its twin
     trace.append({"e": "facts", "raw_content": raw_content, "raw_names": raw_names, "nokey_content": nokey_content, "nokey_names": nokey_names,
-                  "mode": mode, "iv_fresh": iv_fresh, "cipher_fresh": cipher_fresh, "ivs": len(ivs["a"])})
+                  "mode": mode, "iv_fresh": iv_fresh, "cipher_fresh": cipher_fresh, "ivs": len(ivs["a"]), "folders_aes": folders_aes})
     # ---- readings
     wrongs = []
     if pw is not None:
@@ -152,13 +163,28 @@ def run(tier, rep, ev):
               [[(w1, m1), (w2, m2)] for w1 in ("encrypted", "encoded") for m1 in (True, False) for w2 in ("encrypted", "encoded") for m2 in (True, False)]
     cases = []
     k = 0
-    for ch in chains:
-        for ss in (setseqs if tier != "quick" else R.sample(setseqs, 5)):
+    if tier == "quick":
+        # every setter sequence with and without the constructor flag, chains and passwords in rotation
+        for si, ss in enumerate(setseqs):
             for ctor in (False, True):
                 k += 1
-                if tier == "quick" and k % 2:
-                    continue
-                cases.append({"chain": ch, "password": passwords[k % len(passwords)], "hdrenc_ctor": ctor, "sets": ss, "seed": k, "nmembers": 1 + k % 3})
+                cases.append({"chain": chains[k % len(chains)], "password": passwords[k % len(passwords)], "hdrenc_ctor": ctor, "sets": ss, "seed": k,
+                              "nmembers": 1 + k % 3})
+    else:
+        for ch in chains:
+            for ss in setseqs:
+                for ctor in (False, True):
+                    k += 1
+                    cases.append({"chain": ch, "password": passwords[k % len(passwords)], "hdrenc_ctor": ctor, "sets": ss, "seed": k, "nmembers": 1 + k % 3})
+    # the default chain (filters=None) with every password, the empty one included, in every way a write session can start
+    for pi, p in enumerate(passwords):
+        for hi, how in enumerate(("w", "a-fresh", "a-existing")):
+            k += 1
+            cases.append({"chain": None, "password": p, "hdrenc_ctor": bool((pi + hi) % 2), "sets": [], "seed": k, "nmembers": 2 + k % 2, "open": how})
+    for how in ("a-fresh", "a-existing"):
+        for ch in (chains[:4] if tier == "quick" else chains[:-1]):
+            k += 1
+            cases.append({"chain": ch, "password": passwords[k % len(passwords)], "hdrenc_ctor": bool(k % 2), "sets": [], "seed": k, "nmembers": 2, "open": how})
     # no password at all: nothing protected, nothing required
     cases.append({"chain": ["LZMA2"], "password": None, "hdrenc_ctor": False, "sets": [], "seed": 1})
     cases.append({"chain": ["Copy"], "password": None, "hdrenc_ctor": False, "sets": [("encoded", False)], "seed": 2})
